@@ -1240,3 +1240,17 @@ pub fn worker_main(mode: &str, seed: u64, first: u64, count: u64) -> ! {
     }
     std::process::exit(0);
 }
+
+
+/// one round with an explicit round seed (for `xsmon replay`)
+pub fn round_main(mode: &str, round_seed: u64) -> ! {
+    let rt = tokio::runtime::Builder::new_multi_thread().worker_threads(4).enable_all().build().unwrap();
+    let hooks = install_hooks();
+    let v = match mode {
+        "c02" => round_c02(&rt, &hooks, round_seed),
+        "c03" => round_c03(&rt, &hooks, round_seed),
+        _ => round_c11(&rt, &hooks, round_seed),
+    };
+    println!("{}", v);
+    std::process::exit(0);
+}
